@@ -25,7 +25,13 @@
 (***************************************************************************)
 EXTENDS Integers, Sequences
 
-Err == <<-1>>                \* error value; bytes are 0 .. 255, so no output equals it
+\* error values (bytes are 0 .. 255, so no output equals one); the number says what is wrong
+Err == <<-1>>                \* malformed (other)
+ErrTrunc == <<-2>>           \* the input ends inside an element / a length field
+ErrOffset == <<-3>>          \* a copy reaches before the start of the output
+ErrOffset0 == <<-5>>         \* a copy with offset 0
+ErrLength == <<-4>>          \* the declared uncompressed length and the content disagree
+IsErr(x) == Len(x) = 1 /\ x[1] < 0
 Pow2(k) == 2 ^ k
 
 \* bytes appended by a copy of len bytes from distance off behind the end of out (may overlap)
@@ -53,31 +59,36 @@ Varint(s, i, shift, acc) ==
 
 RECURSIVE SnappyLoop(_, _, _, _)
 SnappyLoop(s, i, out, n) ==
-  IF i > Len(s) THEN (IF Len(out) = n THEN out ELSE Err)
+  IF i > Len(s) THEN (IF Len(out) = n THEN out ELSE ErrLength)
   ELSE
   LET tag == s[i]
       kind == tag % 4
       hi == tag \div 4
-      copy(off, len, nx) == IF off <= 0 \/ off > Len(out) \/ Len(out) + len > n THEN Err
+      copy(off, len, nx) == IF off = 0 THEN ErrOffset0
+                            ELSE IF off < 0 \/ off > Len(out) THEN ErrOffset
+                            ELSE IF Len(out) + len > n THEN ErrLength
                             ELSE SnappyLoop(s, nx, out \o CopyBytes(out, off, len), n)
   IN CASE kind = 0 ->
             LET extra == IF hi < 60 THEN 0 ELSE hi - 59
-            IN IF i + extra > Len(s) THEN Err
+            IN IF i + extra > Len(s) THEN ErrTrunc
                ELSE LET len == IF hi < 60 THEN hi + 1
                                ELSE (LET v == LE(s, i + 1, extra) IN IF v < 0 \/ v >= Pow2(30) THEN -1 ELSE v + 1)
                         from == i + 1 + extra
-                    IN IF len < 0 \/ from + len - 1 > Len(s) \/ Len(out) + len > n THEN Err
+                    IN IF len < 0 THEN Err
+                       ELSE IF from + len - 1 > Len(s) THEN ErrTrunc
+                       ELSE IF Len(out) + len > n THEN ErrLength
                        ELSE SnappyLoop(s, from + len, out \o SubSeq(s, from, from + len - 1), n)
-       [] kind = 1 -> IF i + 1 > Len(s) THEN Err
+       [] kind = 1 -> IF i + 1 > Len(s) THEN ErrTrunc
                       ELSE copy((tag \div 32) * 256 + s[i + 1], 4 + (hi % 8), i + 2)
-       [] kind = 2 -> IF i + 2 > Len(s) THEN Err
+       [] kind = 2 -> IF i + 2 > Len(s) THEN ErrTrunc
                       ELSE copy(LE(s, i + 1, 2), hi + 1, i + 3)
-       [] OTHER    -> IF i + 4 > Len(s) THEN Err
+       [] OTHER    -> IF i + 4 > Len(s) THEN ErrTrunc
                       ELSE copy(LE(s, i + 1, 4), hi + 1, i + 5)
 
 SnappyDecode(s, strict) ==
   LET p == Varint(s, 1, 0, 0)
-  IN IF p.v < 0 \/ (strict /\ ~p.minimal) THEN Err ELSE SnappyLoop(s, p.nx, <<>>, p.v)
+  IN IF p.v < 0 THEN (IF p.nx > Len(s) THEN ErrTrunc ELSE ErrLength)
+     ELSE IF strict /\ ~p.minimal THEN Err ELSE SnappyLoop(s, p.nx, <<>>, p.v)
 
 --------------------------------------------------------------------------------
 (* LZ4 block *)
@@ -102,18 +113,22 @@ Lz4Loop(s, i, out, cap, strict, lastm) ==
       ll0 == tok \div 16
       ml0 == tok % 16
       le == IF ll0 = 15 THEN LenExt(s, i + 1, 15) ELSE [v |-> ll0, nx |-> i + 1]
-  IN IF le.v < 0 \/ le.nx + le.v - 1 > Len(s) \/ Len(out) + le.v > cap THEN Err
+  IN IF le.v < 0 \/ le.nx + le.v - 1 > Len(s) THEN ErrTrunc
+     ELSE IF Len(out) + le.v > cap THEN ErrLength
      ELSE
      LET out1 == out \o SubSeq(s, le.nx, le.nx + le.v - 1)
          j == le.nx + le.v
      IN IF j > Len(s)
         THEN \* last sequence: literals only
              IF strict /\ (ml0 # 0 \/ (lastm >= 0 /\ (le.v < 5 \/ Len(out1) - lastm < 12))) THEN Err ELSE out1
-        ELSE IF j + 1 > Len(s) THEN Err                     \* offset cut
+        ELSE IF j + 1 > Len(s) THEN ErrTrunc                \* offset cut
         ELSE
         LET off == s[j] + 256 * s[j + 1]
             me == IF ml0 = 15 THEN LenExt(s, j + 2, 15) ELSE [v |-> ml0, nx |-> j + 2]
-        IN IF off = 0 \/ off > Len(out1) \/ me.v < 0 \/ Len(out1) + me.v + 4 > cap THEN Err
+        IN IF off = 0 THEN ErrOffset0
+           ELSE IF off > Len(out1) THEN ErrOffset
+           ELSE IF me.v < 0 THEN ErrTrunc
+           ELSE IF Len(out1) + me.v + 4 > cap THEN ErrLength
            ELSE Lz4Loop(s, me.nx, out1 \o CopyBytes(out1, off, me.v + 4), cap, strict, Len(out1))
 
 Lz4BlockDecode(s, cap, strict) ==
@@ -124,14 +139,14 @@ Lz4BlockDecode(s, cap, strict) ==
 \* many bytes.  Lenient: a declared length of 0 stands for the empty body whatever follows (the
 \* driver's own test-suite documents that reading).
 Lz4CassDecode(s, strict) ==
-  IF Len(s) < 4 THEN Err
-  ELSE IF s[1] >= 128 THEN Err                              \* >= 2^31: no frame body is that long
+  IF Len(s) < 4 THEN ErrTrunc
+  ELSE IF s[1] >= 128 THEN ErrLength                           \* >= 2^31: no frame body is that long
   ELSE LET n == ((s[1] * 256 + s[2]) * 256 + s[3]) * 256 + s[4]
            blk == SubSeq(s, 5, Len(s))
        IN IF n = 0 /\ ~strict THEN <<>>
           ELSE IF n = 0 THEN (IF blk = <<0>> THEN <<>> ELSE Err)
           ELSE LET o == Lz4BlockDecode(blk, n, strict)
-               IN IF o = Err \/ Len(o) # n THEN Err ELSE o
+               IN IF IsErr(o) THEN o ELSE IF Len(o) # n THEN ErrLength ELSE o
 
 --------------------------------------------------------------------------------
 (* "vfxor": the harness's stand-in for a third-party compressor (marker byte 197, then every  *)
@@ -173,5 +188,5 @@ WireBodyOK(flag, negotiated, wire, logical) ==
 
 \* a response: flag set on a connection without compressor => error; corrupt compressed body => error
 ResponseMustFail(negotiated, flag, body) ==
-  flag /\ (negotiated = "" \/ RefDecode(negotiated, body, FALSE) = Err)
+  flag /\ (negotiated = "" \/ IsErr(RefDecode(negotiated, body, FALSE)))
 =============================================================================
